@@ -50,7 +50,11 @@ func (r *Rma[T]) Compute(c <-chan T) <-chan T {
 		sma := NewSma[T]()
 		sma.Period = r.Period
 
-		before := <-sma.Compute(helper.Head(c, r.Period))
+		before, ok := <-sma.Compute(helper.Head(c, r.Period))
+		if !ok {
+			return
+		}
+
 		result <- before
 
 		for n := range c {
